@@ -8,7 +8,8 @@
 //!    "warnings": [{"k":"unreach","start","end","line","arm":text,"last":bool,"catchall":bool,"interior":bool}],
 //!    "other_warnings": n}
 //! `line` is the 1-based line of the span start in the entry file; only diagnostics whose span lies in
-//! the entry file of the checked package are listed. Purely mechanical: no judgement is made here.
+//! the entry file of the checked package are listed (`--all-files`: in any file of the package; used to
+//! compare the repository's own match tests before/after a fix). Purely mechanical: no judgement is made here.
 use serde_json::{json, Value};
 use std::path::{Path, PathBuf};
 use sway_error::{error::CompileError, warning::Warning};
@@ -79,7 +80,14 @@ fn main() {
             let complete = results.len() == plan.compilation_order().len();
             let (_, handler) = results.pop().ok_or_else(|| anyhow::anyhow!("no result"))?;
             let (errors, warnings, _) = handler.consume();
+            let all_files = args.iter().any(|a| a == "--all-files");
+            let file_of = |sp: &sway_types::Span| -> String {
+                sp.source_id().map(|sid| engines.se().get_path(sid).display().to_string()).unwrap_or_default()
+            };
             let in_entry = |sp: &sway_types::Span| -> bool {
+                if all_files {
+                    return file_of(sp).starts_with(&*dir.to_string_lossy());
+                }
                 match sp.source_id() {
                     Some(sid) => {
                         let p = engines.se().get_path(sid);
@@ -95,7 +103,7 @@ fn main() {
                 let line = sp.start_line_col_one_index().line;
                 match e {
                     CompileError::MatchExpressionNonExhaustive { missing_patterns, .. } if here => {
-                        es.push(json!({"k":"nonexh","missing":missing_patterns,"start":sp.start(),"end":sp.end(),"line":line}))
+                        es.push(json!({"k":"nonexh","missing":missing_patterns,"start":sp.start(),"end":sp.end(),"line":line,"file":file_of(&sp)}))
                     }
                     _ => es.push(json!({"k":"other","text":format!("{e}"),"start":sp.start(),"end":sp.end(),"line":line,"entry":here})),
                 }
@@ -109,7 +117,7 @@ fn main() {
                     {
                         ws.push(json!({"k":"unreach","start":unreachable_arm.start(),"end":unreachable_arm.end(),
                             "line":unreachable_arm.start_line_col_one_index().line,"arm":unreachable_arm.as_str(),
-                            "last":is_last_arm,"catchall":is_catch_all_arm,"interior":preceding_arms.is_right()}))
+                            "last":is_last_arm,"catchall":is_catch_all_arm,"interior":preceding_arms.is_right(),"file":file_of(unreachable_arm)}))
                     }
                     _ => other += 1,
                 }
